@@ -11,4 +11,5 @@ let () =
   | [| _; "vss" |] -> Vss_driver.run ()
   | [| _; "ledger" |] -> Ledger_driver.run ()
   | [| _; "pis" |] -> Pis_driver.run ()
+  | [| _; "path" |] -> Path_driver.run ()
   | _ -> prerr_endline "usage: ompl_model <heap|...>"; exit 2
